@@ -378,7 +378,9 @@ chunk* small_free_memory_list::find_chunk_impl(unsigned char* node, chunk_base* 
 
         first = first->next;
         last  = last->prev;
-    } while (!greater(first, last));
+        // the chunks form a ring through the proxy: a cursor that reached it has passed the
+        // highest (lowest) chunk, without this test the cursors can chase each other forever
+    } while (!greater(first, last) && first != &base_ && last != &base_);
     return nullptr;
 }
 
